@@ -35,6 +35,7 @@ type machineOpts struct {
 }
 
 type machine struct {
+	beforeStep func(p *Pair) // runs before every step
 	rt     *rapid.T
 	o      machineOpts
 	pool   *gen.Pool
@@ -271,6 +272,9 @@ func (m *machine) pickSource(label string) *SourceCfg {
 
 // step runs one Converge and logs it.
 func (m *machine) step(p *Pair) StepResult {
+	if m.beforeStep != nil {
+		m.beforeStep(p)
+	}
 	r := m.w.Step(p)
 	m.logf("step %s: %s %s cursor %v->%v commits=%d", p.Key(), r.Outcome(), errString(r.Err), curStr(r.Before), curStr(r.After), len(r.Commits))
 	return r
